@@ -41,6 +41,9 @@ class Harness:
         self.fn = meta.get("fn", "")
         self.bound = meta.get("bound", "")
         self.timeout = int(meta.get("timeout", "0")) or None
+        # timebox=yes: a (thorough-tier) harness that may not finish within its time box; then it explored nothing and is
+        # reported as such in the evidence (coverage.timeboxed_out) without making the check undecided
+        self.timebox = meta.get("timebox", "no") == "yes"
         self.clause = clause
         self.full = None
 
